@@ -99,6 +99,25 @@ class Impl:
             q, p = A.shape[0] - 1, A.shape[1] - 1
             self.calls.append((A[:q, :p].copy(), [None if np.isnan(v) else int(v) for v in r[:, 0]]))
             return r
+        # np.argsort inside as_xyz_image: the default sort kind gives no promise for ties (several nan -> inf
+        # orientation entries); its answers are recorded and handed to the model as the sort oracle
+        self.sorts = []
+        outer = self
+
+        class NPProxy:
+            def __getattr__(self, name):
+                return getattr(np, name)
+
+            def argsort(self, a, *args, **kw):
+                r = np.argsort(a, *args, **kw)
+                vals = [float(v) for v in np.asarray(a, dtype=float)]
+                fin = [int(v) for v in vals if np.isfinite(v)]
+                big = 1 + max(fin + [0])
+                outer.sorts.append(([int(v) if np.isfinite(v) else big for v in vals], [int(v) for v in r]))
+                return r
+        if getattr(image_spaces, "np", None) is not np:
+            ck.fail("harness/argsort-hook", "image_spaces no longer uses `np`", {}, found_input=False)
+        image_spaces.np = NPProxy()
         for m in (image_spaces, spaces, coordinate_map):
             if getattr(m, "io_orientation", None) is None:
                 ck.fail("harness/io_orientation-hook", "module %s no longer imports io_orientation by name" % m.__name__,
@@ -141,6 +160,15 @@ class Impl:
                     if M.shape == M2.shape and np.array_equal(M, M2) and o2 != o:
                         raise RuntimeError("io_orientation is not a function of the matrix")
         return [(M.tolist(), o) for M, o in out]
+
+    def uniq_sorts(self):
+        out = []
+        for k, v in self.sorts:
+            if (k, v) not in out:
+                if any(k == k2 for k2, _ in out):
+                    raise RuntimeError("np.argsort is not a function of the keys")
+                out.append((k, v))
+        return out
 
     def observe_n(self, ni):
         hdr = ni.header
@@ -465,6 +493,7 @@ def run_image_cases(ck, impl, cases, label):
                  bucket="%s:%dD:%s" % (label, g["n"], cls.split(":")[0]))
         img = impl.image(c)
         impl.calls = []
+        impl.sorts = []
         ni = back = None
         code = None
         try:
@@ -475,13 +504,23 @@ def run_image_cases(ck, impl, cases, label):
                 ck.fail("nipy2nifti/unexpected-exception", "nipy2nifti raised %s: %s" % (type(e).__name__, e), rep)
                 continue
             exc = e
-        calls = impl.uniq_calls()
+        ni2 = code2 = None
         if ni is not None:
             try:
                 back = impl.nr.nifti2nipy(ni)
             except Exception as e:  # noqa
                 ck.fail("nifti2nipy/raises-on-own-output", "nifti2nipy(nipy2nifti(img)) raised %s: %s" % (type(e).__name__, e), rep)
                 continue
+            # idempotence path: convert what came back once more (strict: it now carries canonical names)
+            try:
+                ni2 = impl.nr.nipy2nifti(back, strict=True, fix0=c["fix0"])
+            except Exception as e:  # noqa
+                code2 = impl.errcode(e)
+                if code2 is None:
+                    ck.fail("idempotence/unexpected-exception", "nipy2nifti(nifti2nipy(ni)) raised %s: %s" % (type(e).__name__, e), rep)
+                    continue
+                exc2 = e
+        calls = impl.uniq_calls()
         # ---- oracles on the implementation
         if ni is None:
             if code == 10:
@@ -496,6 +535,16 @@ def run_image_cases(ck, impl, cases, label):
                         "an image with inexpressible geometry (%s) was converted instead of raising NiftiError" % cls[3:], rep)
             elif cls == "yes":
                 oracle_roundtrip(ck, impl, g, c, back, "roundtrip")
+                # nipy2nifti(nifti2nipy(h)) = h on what nipy2nifti produced
+                if ni2 is None:
+                    ck.fail("idempotence/refused-%s" % ERRNAME.get(code2, code2),
+                            "the image that came back from NIfTI is refused when converted again: %s" % exc2, rep)
+                else:
+                    o1, o2 = impl.observe_n(ni), impl.observe_n(ni2)
+                    for fld in sorted(o1):
+                        if o1[fld] != o2[fld]:
+                            ck.fail("idempotence/%s-changed" % fld,
+                                    "nipy2nifti(nifti2nipy(h)) differs from h in %s: %s -> %s" % (fld, str(o1[fld])[:200], str(o2[fld])[:200]), rep)
             # contract of the orientation oracle assumed by the theorems (sampled)
             for M, o in calls:
                 bad = oracle_contract_violation(np.array(M), o)
@@ -505,11 +554,16 @@ def run_image_cases(ck, impl, cases, label):
         # ---- model terms
         exp_n = cerr(code) if ni is None else cnobs(impl.observe_n(ni))
         exp_r = cerr(code) if ni is None else ciobs(impl.observe_i(back))
-        args = "%s %s %s %s" % (cbool(c["strict"]), cbool(c["fix0"]), ctab(calls), cimg(c))
+        sorts = impl.uniq_sorts()
+        args = "%s %s %s %s %s" % (cbool(c["strict"]), cbool(c["fix0"]), ctab(calls),
+                                   clist(["(%s, %s)" % (cnatl(k), cnatl(v)) for k, v in sorts]), cimg(c))
         terms.append("n2n_agrees %s %s" % (args, exp_n))
         meta.append(("nipy2nifti", g, c, args, code, calls))
         terms.append("roundtrip_agrees %s %s" % (args, exp_r))
         meta.append(("roundtrip", g, c, args, code, calls))
+        exp_i = cerr(code) if ni is None else (cerr(code2) if ni2 is None else cnobs(impl.observe_n(ni2)))
+        terms.append("idem_agrees %s %s" % (args, exp_i))
+        meta.append(("idem", g, c, args, code if ni is None else code2, calls))
         if len(ck.cov["samples"]) < 4 and g["n"] >= 5 and ni is not None and g["tl_axis"] is not None:
             o = impl.observe_n(ni)
             ck.sample({"input_names": c["inn"], "output_names": c["outn"], "shape": c["shape"],
@@ -548,7 +602,7 @@ def compare_terms(ck, terms, meta, label):
         if ok:
             continue
         try:
-            show = {"nipy2nifti": "show_n2n %s", "roundtrip": "show_rt %s", "load": "show_load %s",
+            show = {"nipy2nifti": "show_n2n %s", "roundtrip": "show_rt %s", "load": "show_load %s", "idem": "show_idem %s",
                     "ftl": "find_time_like Z %s", "ftype": "type_from_filename %s"}[kind] % args
             mv = ck.coq_show(HDR, show)[:1500]
         except Exception as e:  # noqa
@@ -557,8 +611,9 @@ def compare_terms(ck, terms, meta, label):
         rep["model"] = mv
         rep["impl_error"] = ERRNAME.get(code, code) if code is not None else None
         rep["io_orientation_answers"] = calls
+        rep["coq_args"] = args[:4000]
         feature = ("%dD" % g["n"]) if g is not None else ""
-        ck.fail("model-vs-impl/%s/%s" % (kind, feature if kind in ("nipy2nifti", "roundtrip") else label),
+        ck.fail("model-vs-impl/%s/%s" % (kind, feature if kind in ("nipy2nifti", "roundtrip", "idem") else label),
                 "Coq model and implementation disagree on %s (%s)" % (kind, label), rep)
 
 
